@@ -12,7 +12,7 @@ from vf.spec import INDEX_KINDS, TIED_INDEX_KINDS, S, build, make_frame, make_in
 
 SHARDS = {"quick": 16, "thorough": 16}
 WATCHDOG = {"quick": 1200, "thorough": 7200}
-ZOO_CASES = {"quick": 50, "thorough": 400}
+ZOO_CASES = {"quick": 110, "thorough": 600}
 FLOORS = {
     "quick": {"distinct_nontrivial": 9800, "handbuilt_outputs": 11000, "K2_evaluations": 420,
               "zoo_with_events": 260, "zoo_nondefault_index_with_events": 220},
